@@ -406,6 +406,22 @@ fn deserialize(data: &[u8]) -> Result<SignedPacket> {
         .map_err(|err| anyerr!("Failed to decode stored packet: {err:#}"))
 }
 
+/// Verification hooks: the storage (de)serialisation, otherwise private.
+#[cfg(iroh_verif)]
+pub(super) mod verif_hooks {
+    use super::*;
+
+    /// [`serialize`] as used by the upsert path (the 8-byte prefix is the current time).
+    pub(crate) fn serialize_packet(packet: &SignedPacket) -> Vec<u8> {
+        serialize(packet)
+    }
+
+    /// [`deserialize`] as used by every read of the packets table.
+    pub(crate) fn deserialize_packet(data: &[u8]) -> Result<SignedPacket> {
+        deserialize(data)
+    }
+}
+
 fn get_packet(
     table: &impl ReadableTable<&'static SignedPacketsKey, &'static [u8]>,
     key: &PublicKeyBytes,
